@@ -8,7 +8,7 @@ class that reaches `World.run`), provided `stop()` of every simulator returns (r
 * `second_shutdown`  a second `shutdown()` does nothing
 * `outcome`          KeyboardInterrupt and RemoteException are swallowed (logged), everything else
                      is re-raised after the shutdown
-* `request_never_stuck`, `request_resolves_soon`, `unfixed_request_stuck`  a request to a remote simulator cannot wait forever (fix D21; `MosaikModel/Channel.lean`)
+* `request_never_stuck`, `request_resolves_soon`, `unfixed_request_stuck`  a request to a remote simulator cannot wait forever (fixes D21, D24; `MosaikModel/Channel.lean`), `d21_alone_stuck_on_reset`
 * `main_task_wound_down`, `shutdown_with_pending_main`  the scheduler task is never left pending (fix D22), and why that matters
 The hypothesis about `stop()` is the visible gap (`stop_failure_skips_rest` shows it is needed).
 What no model exhibits — processes, sockets, the 0.1 s stop timeout, promptness, pending asyncio
@@ -92,30 +92,30 @@ theorem stop_failure_skips_rest (w : WorldSt) (e : RunEnd) (j cls : Nat)
 section channel
 open Mosaik.Channel
 
-/-- **after fix D21 no request is ever stuck**: whatever state the connection is in, while a request is outstanding one of
-the transport events that resolve it is enabled — the simulator answers, or (it has died) the receiver sees end-of-stream and
-fails the request, or the reader task takes `EndOfRequests`, or `send` notices that the reader task is done -/
-theorem request_never_stuck (s : Channel.St) : ¬ Channel.Stuck true s := by
+/-- **after the fixes D21 and D24 no request is ever stuck**: whatever state the connection is in, while a request is outstanding
+one of the transport events that resolve it is enabled — the simulator answers, or (it has died or hung up, in order or by a reset)
+the receiver task wakes up, or `send` notices that a task it watches is done -/
+theorem request_never_stuck (s : Channel.St) : ¬ Channel.Stuck 2 s := by
   rintro ⟨hp, hall⟩
   by_cases h1 : s.peerAlive = true
   · have := hall .reply (by decide)
     simp [Channel.step, h1, hp] at this
-  · by_cases h2 : s.eofSeen = true
-    · by_cases h3 : s.readerDone = true
-      · have := hall .sendNotices (by decide)
-        simp [Channel.step, h3, hp] at this
-      · have := hall .readerWakes (by decide)
-        simp [Channel.step, h2, h3] at this
-    · have := hall .receiverSeesEof (by decide)
-      simp [Channel.step, h1, h2] at this
+  · by_cases h2 : s.receiverDone = true
+    · have := hall .sendNotices (by decide)
+      simp [Channel.step, h2, hp] at this
+    · have := hall .receiverWakes (by decide)
+      simp only [Channel.step] at this
+      simp only [Bool.not_eq_true] at h1 h2
+      simp [h1, h2] at this
+      split at this <;> simp at this
 
 /-- the events that can still happen while a request is outstanding -/
 def Channel.budget (s : Channel.St) : Nat :=
-  (if s.peerAlive then 1 else 0) + (if s.eofSeen then 0 else 1) + (if s.readerDone then 0 else 1) + (if s.req = .pending then 1 else 0)
+  (if s.peerAlive then 1 else 0) + (if s.receiverDone then 0 else 1) + (if s.readerDone then 0 else 1) + (if s.req = .pending then 1 else 0)
 
 /-- … and it is resolved after at most four more transport events: every event other than a new `send` uses up budget -/
-theorem request_resolves_soon (fixed : Bool) (s s' : Channel.St) (a : Channel.Act) (ha : a ≠ .send)
-    (h : Channel.step fixed s a = some s') : Channel.budget s' < Channel.budget s := by
+theorem request_resolves_soon (fix : Nat) (s s' : Channel.St) (a : Channel.Act) (ha : a ≠ .send)
+    (h : Channel.step fix s a = some s') : Channel.budget s' < Channel.budget s := by
   cases a with
   | send => exact absurd rfl ha
   | reply =>
@@ -123,45 +123,58 @@ theorem request_resolves_soon (fixed : Bool) (s s' : Channel.St) (a : Channel.Ac
     split at h
     · rename_i hc; cases h; simp [Channel.budget, hc.2]
     · cases h
-  | die =>
+  | die ab =>
     simp only [Channel.step] at h
     split at h
     · rename_i hc; cases h; simp [Channel.budget, hc]
     · cases h
-  | receiverSeesEof =>
+  | receiverWakes =>
     simp only [Channel.step] at h
     split at h
     · rename_i hc
-      cases h
-      simp only [Bool.not_eq_true', Bool.not_eq_eq_eq_not, Bool.not_true] at hc
-      simp only [Channel.budget, hc.1, hc.2]
-      by_cases hr : s.req = .pending <;> by_cases hd : s.readerDone = true <;> simp [hr, hd]
+      simp only [Bool.not_eq_eq_eq_not, Bool.not_true] at hc
+      split at h
+      · cases h
+        simp [Channel.budget, hc.1, hc.2]
+      · cases h
+        simp only [Channel.budget, hc.1, hc.2]
+        by_cases hr : s.req = .pending <;> by_cases hd : s.readerDone = true <;> simp [hr, hd]
     · cases h
   | readerWakes =>
     simp only [Channel.step] at h
     split at h
     · rename_i hc
       cases h
-      simp only [Bool.not_eq_true', Bool.not_eq_eq_eq_not, Bool.not_true] at hc
+      simp only [Bool.not_eq_eq_eq_not, Bool.not_true] at hc
       simp [Channel.budget, hc.2]
     · cases h
   | sendNotices =>
     simp only [Channel.step] at h
     split at h
-    · rename_i hc; cases h; simp [Channel.budget, hc.2.2]
+    · rename_i hc; cases h; simp [Channel.budget, hc.1]
     · cases h
 
-/-- **before the fix a request could wait forever**: the simulator dies while no request is outstanding, the receiver and the
+/-- **originally a request could wait forever** (D21): the simulator dies while no request is outstanding, the receiver and the
 reader task see the end of the stream, then mosaik sends the next request — nothing is enabled any more (the hang of `run()`
 reproduced by the fault kind `exit_idle` on the tree before 732fb98) -/
 theorem unfixed_request_stuck :
-    ∃ s, Channel.exec false {} [.die, .receiverSeesEof, .readerWakes, .send] = some s ∧ Channel.Stuck false s := by
-  refine ⟨{ peerAlive := false, eofSeen := true, readerDone := true, req := .pending }, by decide, rfl, ?_⟩
+    ∃ s, Channel.exec 0 {} [.die false, .receiverWakes, .readerWakes, .send] = some s ∧ Channel.Stuck 0 s := by
+  refine ⟨{ peerAlive := false, receiverDone := true, eofSeen := true, readerDone := true, req := .pending }, by decide, rfl, ?_⟩
   intro a ha
-  cases a <;> first | exact absurd rfl ha | decide
+  cases a <;> first | exact absurd rfl ha | decide | rfl
 
-/-- the same history on the fixed code: the request fails at once (`ConnectionResetError` → `SimulationError` naming the simulator) -/
-example : (Channel.exec true {} [.die, .receiverSeesEof, .readerWakes, .send]).map (·.req) = some .failed := by decide
+/-- **fix D21 alone left the reset case** (D24): a request is outstanding, the connection is reset, the receiver task ends
+without failing the request and without `EndOfRequests` — the reader task never ends, `send` watches only the reader task (the
+hang reproduced by the fault kind `reset` on the tree before f21ca20) -/
+theorem d21_alone_stuck_on_reset :
+    ∃ s, Channel.exec 1 {} [.send, .die true, .receiverWakes] = some s ∧ Channel.Stuck 1 s := by
+  refine ⟨{ peerAlive := false, abortive := true, receiverDone := true, req := .pending }, by decide, rfl, ?_⟩
+  intro a ha
+  cases a <;> first | exact absurd rfl ha | decide | rfl
+
+/-- the same two histories on the fixed code: the request fails (`ConnectionResetError` → `SimulationError` naming the simulator) -/
+example : (Channel.exec 2 {} [.die false, .receiverWakes, .readerWakes, .send]).map (·.req) = some .failed := by decide
+example : (Channel.exec 2 {} [.send, .die true, .receiverWakes, .sendNotices]).map (·.req) = some .failed := by decide
 
 end channel
 
